@@ -871,6 +871,61 @@ func init() {
 				}
 				s.Check(reads && nt, key, c.P.Pos(f.Pos()), "decides on the presence of "+t.field, "does not test "+t.field+" for nil")
 			}
+			// "… the scheme's default port, or 0, otherwise": the only constant DecodedPort can hand out is 0
+			if f := c.P.Func("url", "Url", "DecodedPort"); f != nil {
+				ks := map[int64]token.Pos{}
+				var collect func(g *ssa.Function, depth int)
+				seen := map[*ssa.Function]bool{}
+				collect = func(g *ssa.Function, depth int) {
+					if seen[g] || depth > 4 {
+						return
+					}
+					seen[g] = true
+					var val func(v ssa.Value, d int)
+					val = func(v ssa.Value, d int) {
+						if d > 6 {
+							return
+						}
+						switch x := v.(type) {
+						case *ssa.Const:
+							if k, ok := constInt(x); ok {
+								if _, dup := ks[k]; !dup {
+									ks[k] = g.Pos()
+								}
+							}
+						case *ssa.Phi:
+							for _, e := range x.Edges {
+								val(e, d+1)
+							}
+						case *ssa.Convert:
+							val(x.X, d+1)
+						case *ssa.Call:
+							if cl := x.Common().StaticCallee(); cl != nil && c.P.InModule(cl) && len(cl.Blocks) > 0 && cl.Signature.Results().Len() == 1 {
+								collect(cl, depth+1)
+							}
+						}
+					}
+					for _, b := range g.Blocks {
+						if r, ok := b.Instrs[len(b.Instrs)-1].(*ssa.Return); ok && len(r.Results) == 1 {
+							val(r.Results[0], 0)
+						}
+					}
+				}
+				collect(f, 0)
+				bad := ""
+				var badPos token.Pos
+				for k, p := range ks {
+					if k != 0 {
+						bad = fmt.Sprintf("DecodedPort can return the constant %d: without a port and without a default port the answer must be 0", k)
+						badPos = p
+					}
+				}
+				if bad != "" {
+					s.Bad("group/DecodedPort/fallback", c.P.Pos(badPos), bad)
+				} else {
+					s.OK("group/DecodedPort/fallback", c.P.Pos(f.Pos()), "the only constant DecodedPort (and the functions whose answer it returns) can hand out is 0")
+				}
+			}
 		},
 	})
 
